@@ -36,8 +36,9 @@ VARIABLES l,        \* next event
           ordTab,   \* [<<seed, ordinal>> -> streams]  over all traces of the batch (never reset)
           fpSeed,   \* [stream -> seed]  over all traces of the batch (never reset)
           tr,       \* [seed, npk, straight]  of the current trace
+          repl,     \* Seq of replaced non-initial path numbers of this process lifetime (C14: deletion lag)
           seg       \* <<c0, ncomp, npick, ncred>> start step, completions, picks of this lifetime; credits of the trace
-tvars == <<l, bad, cur, jobsM, accF, wOf, fpSig, fpSince, rowsPn, lastRec, pending, ordTab, fpSeed, tr, seg>>
+tvars == <<l, bad, cur, jobsM, accF, wOf, fpSig, fpSince, rowsPn, lastRec, pending, ordTab, fpSeed, tr, repl, seg>>
 
 Pins   == 0..(Workers-1)
 NoJobM == [ens |-> <<>>]
@@ -234,7 +235,15 @@ CompleteClauses(pre, ev) ==
                                    SeqAdd(IF p \in DOMAIN accF /\ p \notin newSet THEN accF[p] ELSE ZeroR, D(p)), tol),
     C_NoOverrun  |-> pre.cstep < pre.tsteps,
     \* C07: no random number was drawn from outside the job's streams while the move ran
-    C_NoForeign  |-> ev.foreign = 0 ]
+    C_NoForeign  |-> ev.foreign = 0,
+    \* C14: live paths read back unchanged; initial paths are never deleted; a replaced path keeps its
+    \* files until N further non-initial paths have been replaced (the code's lag, state.n - 1)
+    C_StoreLive    |-> ev.store.checked => ev.store.live_ok,
+    C_StoreHasLive |-> ev.store.checked => livePost \subseteq SeqSet(ev.store.present),
+    C_StoreInitial |-> ev.store.checked => \A p \in 0..(N-1) : p \in SeqSet(ev.store.present),
+    C_StoreLag     |-> ev.store.checked =>
+                         LET r2 == repl \o (IF ev.acc THEN SelectSeq(ev.old, LAMBDA x : x >= N) ELSE <<>>)
+                         IN \A k \in 1..Len(r2) : (Len(r2) - k < N) => r2[k] \in SeqSet(ev.store.present) ]
 
 FinishClauses(pre, ev) ==
   [ F_Done     |-> pre.cstep >= pre.tsteps,
@@ -292,7 +301,7 @@ TInit == /\ l = 1 /\ bad = <<>>
          /\ jobsM = [p \in Pins |-> NoJobM]
          /\ accF = Empty /\ wOf = Empty /\ fpSig = Empty /\ fpSince = {} /\ rowsPn = {}
          /\ lastRec = [ok |-> FALSE] /\ pending = <<>> /\ seg = <<0, 0, 0, 0>>
-         /\ ordTab = Empty /\ fpSeed = Empty /\ tr = [seed |-> -1, npk |-> 0, straight |-> TRUE]
+         /\ ordTab = Empty /\ fpSeed = Empty /\ tr = [seed |-> -1, npk |-> 0, straight |-> TRUE] /\ repl = <<>>
 
 StepInit(ev) ==
   /\ bad' = bad \o Note(l, Failed(InitClauses(ev)))
@@ -302,7 +311,7 @@ StepInit(ev) ==
   /\ wOf' = RowsOfState(ev.st)
   /\ fpSig' = Empty /\ fpSince' = {} /\ rowsPn' = {} /\ lastRec' = [ok |-> FALSE] /\ pending' = <<>>
   /\ seg' = <<0, 0, 0, 0>>
-  /\ tr' = [seed |-> ev.seed, npk |-> 0, straight |-> TRUE]
+  /\ tr' = [seed |-> ev.seed, npk |-> 0, straight |-> TRUE] /\ repl' = <<>>
   /\ UNCHANGED <<ordTab, fpSeed>>
 
 StepPick(ev) ==
@@ -320,7 +329,7 @@ StepPick(ev) ==
   /\ ordTab' = IF tr.straight /\ <<tr.seed, tr.npk>> \notin DOMAIN ordTab
                 THEN (<<tr.seed, tr.npk>> :> ev.fps) @@ ordTab ELSE ordTab
   /\ fpSeed' = [f \in DOMAIN fpSeed \cup SeqSet(ev.fps) |-> IF f \in DOMAIN fpSeed THEN fpSeed[f] ELSE tr.seed]
-  /\ UNCHANGED <<accF, wOf, rowsPn, lastRec>>
+  /\ UNCHANGED <<accF, wOf, rowsPn, lastRec, repl>>
 
 StepComplete(ev) ==
   LET post == ev.st
@@ -337,12 +346,13 @@ StepComplete(ev) ==
   /\ lastRec' = ev.rec
   /\ seg' = <<seg[1], seg[2] + 1, seg[3], seg[4] + 1>>
   /\ fpSince' = {}
+  /\ repl' = repl \o (IF ev.acc THEN SelectSeq(ev.old, LAMBDA x : x >= N) ELSE <<>>)
   /\ UNCHANGED <<fpSig, pending, ordTab, fpSeed, tr>>
 
 StepFinish(ev) ==
   /\ bad' = bad \o Note(l, Failed(FinishClauses(cur, ev)))
   /\ lastRec' = ev.rec
-  /\ UNCHANGED <<cur, jobsM, accF, wOf, fpSig, fpSince, rowsPn, pending, seg, ordTab, fpSeed, tr>>
+  /\ UNCHANGED <<cur, jobsM, accF, wOf, fpSig, fpSince, rowsPn, pending, seg, ordTab, fpSeed, tr, repl>>
 
 StepRestart(ev) ==
   /\ bad' = bad \o Note(l, Failed(RestartClauses(ev)))
@@ -357,7 +367,7 @@ StepRestart(ev) ==
   \* jobs drawn after the last completed step died unrecorded: their streams are forgotten
   /\ fpSig' = [f \in DOMAIN fpSig \ fpSince |-> fpSig[f]]
   /\ fpSince' = {}
-  /\ tr' = [tr EXCEPT !.straight = FALSE]
+  /\ tr' = [tr EXCEPT !.straight = FALSE] /\ repl' = <<>>
   /\ UNCHANGED <<ordTab, fpSeed>>
 
 TNext == /\ l <= Len(Tr)
